@@ -398,6 +398,13 @@ class Interp:
             if isinstance(v, Opaque):
                 raise TranslateError(f'line {t.lineno}: self.{t.attr} receives a value the interpreter does not follow')
             env['self.' + t.attr] = v
+        elif isinstance(t, ast.Attribute) and t.attr == 'version' and isinstance(t.value, ast.Subscript) \
+                and ast.unparse(t.value.value) == 'self.game_lumps':
+            # the header number of a game lump, as it will be written by save()
+            k = self.ev(t.value.slice, env)
+            if isinstance(v, Opaque) or not isinstance(k, bytes) or not isinstance(v, int):
+                raise TranslateError(f'line {t.lineno}: header number of a game lump receives a value the interpreter does not follow')
+            env['self.game_lumps.version:' + k.decode('ascii', 'replace')] = v
         elif isinstance(t, (ast.Tuple, ast.List)):
             if isinstance(v, Opaque):
                 for x in t.elts:
@@ -672,16 +679,20 @@ def tables(tree: ast.Module) -> dict[str, Any]:
         except _Return:
             raise TranslateError('_lmp_write_props: returns before the records are written') from None
         except _Raise as r:
-            writer_rows.append(('' if pre is unknown else pre.name, '!' + r.kind, '', 0))
+            writer_rows.append(('' if pre is unknown else pre.name, '!' + r.kind, '', 0, 255))
             continue
         rec = env['self.static_prop_version']
         dn = {name_of(v) for k, v in env.items() if isinstance(v, Member) and not k.startswith('self.') and v.cls == 'StaticPropVersion'}
         if len(dn) != 1:
             raise TranslateError(f'_lmp_write_props: the record loop is entered with {len(dn)} different formats in locals')
-        nums = {k: v for k, v in env.items() if isinstance(v, int) and not isinstance(v, bool) and not k.startswith('!')}
+        nums = {k: v for k, v in env.items() if isinstance(v, int) and not isinstance(v, bool) and not k.startswith('!') and not k.startswith('self.')}
         if len(nums) != 1:
             raise TranslateError(f'_lmp_write_props: expected one integer local (the ladder number) at the record loop, found {sorted(nums)}')
-        writer_rows.append(('' if pre is unknown else pre.name, name_of(rec), dn.pop(), next(iter(nums.values()))))
+        # the header number save() will write: set by the writer, or left as the file that was opened had it (255)
+        hw = env.get('self.game_lumps.version:sprp', 255)
+        if [k for k in env if k.startswith('self.game_lumps.version:') and k != 'self.game_lumps.version:sprp']:
+            raise TranslateError('_lmp_write_props: sets the header number of another game lump')
+        writer_rows.append(('' if pre is unknown else pre.name, name_of(rec), dn.pop(), next(iter(nums.values())), hw))
     return {'members': [(m.name, m.attrs['version'], m.attrs['size'], m.attrs.get('variant', '')) for m in members],
             'bsp_versions': [m.attrs['value'] for m in ip.versions.members] + [other],
             'bsp_version_names': {m.attrs['value']: sorted(k for k, v in ip.versions.by_name.items() if v is m) for m in ip.versions.members},
@@ -711,7 +722,7 @@ def generate(tree: ast.Module) -> tuple[str, dict[str, Any]]:
          '(* BSP version, header number, record size, format named beforehand, format recorded, format the records are decoded with, ladder number *)',
          'Definition pv_sized : list pv_sized_row := [',
          rows([f'({b}, {h}, {sz}, {f(p)}, {f(r)}, {f(d)}, {n})' for b, h, sz, p, r, d, n in t['sized']], 6), ']%N.',
-         '(* format recorded before, format recorded afterwards, format the records are written in, ladder number *)',
-         'Definition pv_writer : list pv_writer_row := [' + '; '.join(f'({f(p)}, {f(r)}, {f(w)}, {n})' for p, r, w, n in t['writer']) + ']%N.',
+         '(* format recorded before, format recorded afterwards, format the records are written in, ladder number, header number set (255 = left as it was) *)',
+         'Definition pv_writer : list pv_writer_row := [' + '; '.join(f'({f(p)}, {f(r)}, {f(w)}, {n}, {hw})' for p, r, w, n, hw in t['writer']) + ']%N.',
          'Definition pv_tables : pv_cfg := (pv_members, pv_bsp_versions, pv_empty, pv_sized, pv_writer).']
     return '\n'.join(L), {'prop_version_choice': t}
